@@ -605,6 +605,11 @@ class UserSecurityModel(
             raise SnmpError(
                 "Invalid discovery response (unexpected security parameters)"
             )
+        if not security.authoritative_engine_id:
+            # A request naming an empty engine-id is a discovery probe by
+            # itself. With such a value in the cache no request would ever
+            # reach the remote engine.
+            raise SnmpError("Invalid discovery response (empty engine-id)")
         wrapped_vars = response_msg.scoped_pdu.data.value.varbinds
         if not wrapped_vars:
             raise SnmpError("Invalid discovery response (no varbinds returned)")
